@@ -327,7 +327,7 @@ structure CIssuance where
   type : IssuanceType
   blindingNonce : Bytes
   contractHash : Bytes
-  /-- meaningful for a reissuance only (`generateIssuanceEntropy` is not modelled) -/
+  /-- the entropy of a reissuance; that of a new issuance is computed by `cIssEntropy` (EnvDigest.lean) -/
   entropy : Bytes
   assetAmt : CAmt
   tokenAmt : CAmt
